@@ -223,8 +223,9 @@ class Input(ContextManager["Input"]):
                     os.read(r, 1024)
                     if self.queued_interrupting_events:
                         return False, self.queued_interrupting_events.pop(0)
-                    elif remaining_timeout is not None:
-                        remaining_timeout = max(0, t0 + remaining_timeout - time.time())
+                    elif timeout is not None:
+                        # measured from the start of the wait, not from the last wake-up
+                        remaining_timeout = max(0, t0 + timeout - time.time())
                         continue
                     else:
                         continue
@@ -232,8 +233,8 @@ class Input(ContextManager["Input"]):
             except OSError:
                 if self.sigints:
                     return False, self.sigints.pop()
-                if remaining_timeout is not None:
-                    remaining_timeout = max(remaining_timeout - (time.time() - t0), 0)
+                if timeout is not None:
+                    remaining_timeout = max(timeout - (time.time() - t0), 0)
 
     def send(
         self, timeout: Optional[Union[float, None]] = None
